@@ -8,23 +8,23 @@ def B(qc, tc, **kw):
 BUDGET = {
     "C04": B(2800, 16800),
     "C09": B(2800, 16800),
-    "C01": B(3000, 18000),
-    "C02": B(3000, 18000, foreign=["ASSERT:m_activeOp"]),
+    "C01": B(3000, 15000),
+    "C02": B(3000, 15000, foreign=["ASSERT:m_activeOp"]),
     "C03": B(2200, 13200, foreign=["ASSERT:m_activeOp"]),
     "C12": B(2400, 14400, foreign=["ASSERT:m_activeOp"]),
-    "C07": B(4500, 27000),
-    "C08": B(4500, 27000),
+    "C07": B(4500, 15000),
+    "C08": B(4500, 15000),
     "C20": B(4500, 27000),
     "C15": B(450, 2700, nondeterministic=True, cpu_limit=120, max_shrink=150, wall_limit=20),
-    "C11": B(3000, 18000),
+    "C11": B(3000, 15000),
     "C06": B(1800, 10800),
     "C13": B(1500, 9000),
     "C17": B(1200, 7200, cpu_limit=60),
     "C18": B(1200, 7200, cpu_limit=60),
-    "C19": B(6000, 36000),
-    "C14": B(3000, 18000),
+    "C19": B(6000, 32000),
+    "C14": B(3000, 11000),
     "C05": B(3200, 19200),
-    "C10": B(6000, 36000),
+    "C10": B(6000, 30000),
     "C16": B(3600, 21600),
 }
 
